@@ -98,3 +98,16 @@ Definition check_unit_norm (D : nat) (tiny : float) (style : nat) (z impl : list
   let zz := cnth z in
   let m := match style with 0%nat => tab D (cunit_where FO D tiny zz) | _ => tab D (cunit_max FO D tiny zz) end in
   cmpF rt 0x1p-1000 (cflat m) (cflat impl).
+
+(* ---- the whole GMM fit (diagonal covariances) executed by the model: Model/GMMLoop.v ---- *)
+From PB Require Import Model.GMMLoop.
+Definition check_gmm_fit (K' D N n : nat) (tiny tinyw : float) (y g0 : list (list float))
+    (impl_w : list float) (impl_mean impl_var impl_post : list (list float)) : bool * float :=
+  let pi2 := (2 * 0x1.921fb54442d18p+1)%float in
+  let m := gmm_fit FO K' D N tiny tinyw pi2 (fnth2 y) n g0 in
+  let post := gmm_predict FO K' D N tiny pi2 (fnth2 y) m in
+  let tol := 0x1p-20 in
+  allR [cmpF tol (tol * 0x1p-10) (gw m) impl_w;
+        cmpF tol (tol * scaleF (flat impl_mean)) (flat (gmean m)) (flat impl_mean);
+        cmpF tol (tol * scaleF (flat impl_var)) (flat (gvar m)) (flat impl_var);
+        cmpF tol (tol * 0x1p-6) (flat post) (flat impl_post)].
